@@ -271,7 +271,7 @@ def units(tier):
             out += [("twogaps", nme, it) for it in ("/* a */", "// a\n", "/* m\nl */", "\n")]
     else:
         for nme in ("salt", "splitter_test"):
-            out += [("pair", nme, it) for it in TRIVIA]
+            out += [("pair", nme, it) for it in (TRIVIA if nme == "salt" else TRIVIA[::4])]
             out += [("twogaps", nme, it) for it in ("/* a */", "// a\n")]
     for nme in ("salt", "comments") if tier == "quick" else names:
         out += [("after", nme, p) for p in POISON]
